@@ -79,6 +79,23 @@ def run(ctx):
     else:
         corr_ok = False
 
+    # how many of the generated values satisfy the hypothesis rwf of C01_roundtrip (evaluated inside Coq); the only
+    # generated values outside rwf must be those of the known finding (an extension object with an empty registered struct)
+    wf_n, wf_out = None, []
+    if okm:
+        imports = cc.IMPORTS.replace("Model.CodecEq ", "Model.CodecEq Model.CodecWf Model.CodecWfAll ")
+        okw, idxw, wlog = ctx.eval_cases(imports, "ty * val", ["(%s, %s)" % (o["ty"], o["val"]) for o in obs],
+                                         "  rwf reg (fst c) (snd c)", shard=80, name="WfCases")
+        if okw:
+            wf_n = len(obs) - len(idxw)
+            wf_out = [obs[i] for i in idxw if "(Some (VPtr (Some (VStruct []))))" not in obs[i]["val"]]
+            ctx.log("%d of %d generated values satisfy rwf (hypothesis of C01_roundtrip); %d outside rwf beyond the known empty-struct class"
+                    % (wf_n, len(obs), len(wf_out)))
+            if wf_out:
+                detail["generated_values_outside_rwf"] = [{"ty": o["ty"], "val": o["val"][:600]} for o in wf_out[:4]]
+        else:
+            detail["wf_cases"] = wlog[-1500:]
+
     distinct = {(o["ty"], o.get("hex")) for o in obs if len(o.get("hex", "")) > 2}
     kinds = {}
     for o in obs:
@@ -94,6 +111,8 @@ def run(ctx):
         "variant_shapes_hit": len(kinds),
         "traces_validated_against_impl": len(obs) if corr_ok else len(obs) - len(mism),
         "model_impl_mismatches": len(mism),
+        "values_satisfying_theorem_hypothesis_rwf": wf_n,
+        "values_outside_rwf_not_in_known_class": len(wf_out),
     })
-    ctx.notes.append("theorem coverage: C01_partial_generic covers 114 of the 309 generated struct descriptors completely (all fields in the proved fragment); values through NodeID/ExpandedNodeID/DiagnosticInfo/DataValue/Variant/ExtensionObject are covered by the model correspondence and the implementation oracle only")
+    ctx.notes.append("theorem coverage: C01_roundtrip is proved for every descriptor of the universe and every value satisfying rwf, hence for all 309 generated struct descriptors (C01_generated, C01_descriptors_inhabited); the generated values outside rwf are exactly those of the known finding extobj-empty-struct unless values_outside_rwf_not_in_known_class > 0 (then rwf is narrower than what the generator produces, reported in detail)")
     ctx.conclude(proof_ok, corr_ok, new, detail)
